@@ -1654,7 +1654,7 @@ func (g Gateway) SubscribeToEvents(in *hydrapb.SubscribeToEventsRequest, eventSe
 		convertedStatusType := convertTreasureStatusToPbStatus(event.StatusType)
 
 		// convert the event time to the protobuf format
-		convertedEventTime := timestamppb.New(time.Unix(event.EventTime, 0))
+		convertedEventTime := timestamppb.New(time.Unix(0, event.EventTime))
 		convertedOldTreasure := &hydrapb.Treasure{}
 		convertedDeletedTreasure := &hydrapb.Treasure{}
 
